@@ -46,7 +46,9 @@ def non_interchange(d: t.Any, path: str = '$') -> t.Optional[str]:
     if ty in INTERCHANGE_SCALARS:
         return None
     if isinstance(d, INTERCHANGE_SCALARS):
-        return None   # an instance of a user subclass of str/bytes/int/float/complex is still that scalar
+        # "interchange scalars map to themselves": the plain scalar, not an instance of a subclass (a numpy.bytes_, a user class, an
+        # enum member), which emitters like PyYAML's refuse to represent
+        return f"{path}: an instance of {ty.__module__}.{ty.__name__} ({d!r:.60}), a subclass of an interchange scalar type, not the plain scalar"
     if ty in (list, tuple):
         for (i, x) in enumerate(d):
             r = non_interchange(x, f"{path}[{i}]")
